@@ -8,6 +8,7 @@ import (
 	"go/types"
 	"math/big"
 	"sort"
+	"strconv"
 	"strings"
 
 	"golang.org/x/tools/go/ssa"
@@ -86,7 +87,16 @@ func (e *Enc) encCall(v ssa.Value, c *ssa.CallCommon, st *State, guard string, d
 	// callsite assertions of the enclosing function's contract
 	if e.fc != nil {
 		for _, cc := range e.fc.Callsites {
-			if cc.Callee == ci.key || cc.Callee == shortCallee(ci.key) {
+			callee, want := cc.Callee, -1
+			if k := strings.LastIndex(callee, "@"); k > 0 {
+				if nn, err := strconv.Atoi(callee[k+1:]); err == nil {
+					callee, want = callee[:k], nn
+				}
+			}
+			if want >= 0 && want != e.callCount["site:"+ci.key] {
+				continue
+			}
+			if callee == ci.key || callee == shortCallee(ci.key) {
 				ctx := e.ctxAt(st, e.curBlock, e.curIdx)
 				for i, a := range ci.args {
 					ctx.bind[fmt.Sprintf("$%d", i)] = TV{T: e.term(a), Typ: a.Type(), Sort: e.st.sortOf(a.Type())}
@@ -105,6 +115,7 @@ func (e *Enc) encCall(v ssa.Value, c *ssa.CallCommon, st *State, guard string, d
 	if e.fc != nil {
 		variant = e.fc.Variant
 	}
+	e.callCount["site:"+ci.key]++
 	fc := e.w.callContractFor(ci.key, e.mode.String(), variant)
 	n := e.callCount[ci.key]
 	e.callCount[ci.key] = n + 1
